@@ -10,7 +10,7 @@ def load_claimed():
     import importlib, glob
     sys.path.insert(0, os.path.join(VERIF, "tools"))
     out = {}
-    for p in sorted(glob.glob(os.path.join(VERIF, "checks", "C*.py"))):
+    for p in sorted(glob.glob(os.path.join(VERIF, "checks", "C[0-9][0-9].py"))):
         mod = importlib.import_module("checks." + os.path.basename(p)[:-3])
         out[mod.ID] = mod.MANIFEST
     return out
